@@ -303,7 +303,7 @@ structure GeneWF (o : GeneObj) : Prop where
   children : ∀ t ∈ o.transcripts, TxWF t
   nonempty : o.transcripts ≠ []
 
-theorem gene_roundtrip (cs : Int) (o : GeneObj) (h : GeneWF o) : geneFromDict md5 cs (geneToDict o) = .ok o := by
+theorem gene_roundtrip (cs : Frame) (o : GeneObj) (h : GeneWF o) : geneFromDict md5 cs (geneToDict o) = .ok o := by
   obtain ⟨txs, gid, sym, ty, lt, q, sn, sg, g⟩ := o
   have hq := quals_roundtrip h.quals
   have hb := optBiotype_roundtrip h.biotype
@@ -327,7 +327,7 @@ structure FcWF (o : FcObj) : Prop where
   children : ∀ t ∈ o.features, FeatWF t
   nonempty : o.features ≠ []
 
-theorem fc_roundtrip (cs : Int) (o : FcObj) (h : FcWF o) : fcFromDict md5 cs (fcToDict o) = .ok o := by
+theorem fc_roundtrip (cs : Frame) (o : FcObj) (h : FcWF o) : fcFromDict md5 cs (fcToDict o) = .ok o := by
   obtain ⟨fs, name, id, ct, lt, q, sn, sg, g⟩ := o
   have hq := quals_roundtrip h.quals
   have hc : (fs.map featToDict).mapM (featFromDict md5) = .ok fs :=
@@ -351,7 +351,7 @@ structure VcWF (o : VcObj) : Prop where
   nonempty : o.variants ≠ []
   sorted : o.variants.Pairwise fun a b => a.args.start ≤ b.args.start
 
-theorem vc_roundtrip (cs : Int) (o : VcObj) (h : VcWF o) : vcFromDict md5 cs (vcToDict o) = .ok o := by
+theorem vc_roundtrip (cs : Frame) (o : VcObj) (h : VcWF o) : vcFromDict md5 cs (vcToDict o) = .ok o := by
   obtain ⟨vs, name, id, q, sn, sg, g⟩ := o
   have hq := quals_roundtrip h.quals
   have hc : (vs.map varToDict).mapM (varFromDict md5) = .ok vs :=
@@ -434,7 +434,7 @@ structure AcWF (o : AcObj) : Prop where
   fcs : ∀ c ∈ o.fcs, FcWF c
   vcs : ∀ c ∈ o.vcs, VcWF c
   parent : ParentWF o.parent
-  guid : o.guid = acGuidOf md5 o.bounds o.parent.chunkStart o.name o.sequenceName o.quals o.completelyWithin
+  guid : o.guid = acGuidOf md5 o.bounds o.parent.frame o.name o.sequenceName o.quals o.completelyWithin
             (o.genes.map (·.guid) ++ o.fcs.map (·.guid) ++ o.vcs.map (·.guid))
 
 theorem optChildren_roundtrip {α : Type} {f : α → PyVal} {g : PyVal → D α} {l : List α}
@@ -450,11 +450,11 @@ theorem ac_roundtrip (o : AcObj) (h : AcWF md5 o) (ep : Bool) (d : PyVal) (hd : 
     acFromDict md5 d (if ep then .none else o.parent) = .ok o := by
   obtain ⟨genes, fcs, vcs, name, id, q, sn, sg, sp, bounds, cw, parent, g⟩ := o
   have hq := quals_roundtrip h.quals
-  have hg : optChildren (geneFromDict md5 parent.chunkStart) (.list (genes.map geneToDict)) = .ok genes :=
+  have hg : optChildren (geneFromDict md5 parent.frame) (.list (genes.map geneToDict)) = .ok genes :=
     optChildren_roundtrip fun x hx => gene_roundtrip md5 _ x (h.genes x hx)
-  have hf : optChildren (fcFromDict md5 parent.chunkStart) (.list (fcs.map fcToDict)) = .ok fcs :=
+  have hf : optChildren (fcFromDict md5 parent.frame) (.list (fcs.map fcToDict)) = .ok fcs :=
     optChildren_roundtrip fun x hx => fc_roundtrip md5 _ x (h.fcs x hx)
-  have hv : optChildren (vcFromDict md5 parent.chunkStart) (.list (vcs.map vcToDict)) = .ok vcs :=
+  have hv : optChildren (vcFromDict md5 parent.frame) (.list (vcs.map vcToDict)) = .ok vcs :=
     optChildren_roundtrip fun x hx => vc_roundtrip md5 _ x (h.vcs x hx)
   have hguid := h.guid
   simp only at hq hguid
